@@ -140,7 +140,7 @@ def ref_value(a, reference):
     raise KeyError(reference)
 
 
-def lossy_problem(x, y, digits, reference):
+def lossy_problem(x, y, digits, reference, seen=None):
     """x, y: (n, isz) float64 originals / restored at the elements the encoder saw"""
     if x.size == 0:
         return None
@@ -169,6 +169,9 @@ def lossy_problem(x, y, digits, reference):
         d = min(d, float(digits)) if float(digits) < SINGLE_DIGITS else d     # the REQUESTED digits when fewer
         for k in range(x.shape[1]):
             ref = max(ref_value(x[:, k], reference), ref_value(x, reference))
+            if seen is not None and seen.size:       # the values the encoder may have taken the reference from
+                fs = np.where(np.isfinite(seen), seen, 0.)
+                ref = max(ref, ref_value(fs[:, k], reference), ref_value(fs, reference))
             bound = ref * 10. ** -d * (1 + 1e-6) + slack
             bad = err[:, k] > bound
             if bad.any():
@@ -179,7 +182,7 @@ def lossy_problem(x, y, digits, reference):
     return '%s digits relative to %g: error %g > %g' % (digits, reference, err[bad][0], bound) if bad.any() else None
 
 
-def compare_values(tag, orig, rest, keep, digits, reference, default, hidden_ok=True):
+def compare_values(tag, orig, rest, keep, digits, reference, default, seen=None):
     """orig/rest: arrays shape+item; keep: bool array over shape (True where the value must survive)"""
     isz = int(np.prod(orig.shape[keep.ndim:], dtype=int))
     o = np.ascontiguousarray(orig).reshape((-1, isz))[keep.ravel()]
@@ -194,7 +197,8 @@ def compare_values(tag, orig, rest, keep, digits, reference, default, hidden_ok=
                     % (tag, int(arr_bits(o)[bad]), int(arr_bits(r)[bad])))
         return None
     with np.errstate(invalid='ignore', over='ignore'):
-        p = lossy_problem(o.astype(np.float64), r.astype(np.float64), digits, reference)
+        sv = None if seen is None else np.ascontiguousarray(orig).reshape((-1, isz))[seen.ravel()].astype(np.float64)
+        p = lossy_problem(o.astype(np.float64), r.astype(np.float64), digits, reference, sv)
     if p and p.startswith('NONFINITE'):
         return (tag + ':lossy-nonfinite:%s' % (reference if isinstance(reference, str) else 'num'), tag + ': ' + p)
     return (tag + ':lossy:%s:%s' % (digits if isinstance(digits, str) else 'num', reference if isinstance(reference, str) else 'num'),
@@ -251,7 +255,7 @@ def compare(case, q, r):
             return ('deriv:readonly:flag', 'derivative %s: read-only status %s came back as %s' % (k, d._readonly_, e._readonly_))
         dd, dr = eff_digits(case, q, k)
         keep = ~(m | exp_mask(d))
-        p = compare_values('deriv-values', full_vals(d), full_vals(e), keep, dd, dr, d._default_)
+        p = compare_values('deriv-values', full_vals(d), full_vals(e), keep, dd, dr, d._default_, seen=~m)
         if p:
             return p
     # a derivative is an object too: wherever it comes back masked it holds its default
@@ -311,6 +315,12 @@ def oracle(case):
         if case.get('digits') is not None and any(isinstance(o._values_, np.ndarray) and o._values_.dtype.kind == 'f'
                                                    and not np.isfinite(o._values_).all() for o in [q] + list(q._derivs_.values())):
             tag = ':lossy-nonfinite'
+        elif case.get('digits') is not None:
+            for o in [q] + list(q._derivs_.values()):
+                if isinstance(o._values_, np.ndarray) and o._values_.dtype.kind == 'f' and o._values_.size:
+                    a = np.abs(o._values_[o._values_ != 0])
+                    if a.size and a.max() / a.min() > 1e200:
+                        tag = ':lossy-overflow'
         return ('dumps-raises:' + type(e).__name__ + tag, 'pickle.dumps raised %s: %s' % (type(e).__name__, str(e)[:200]))
     if snapshot(q) != before:
         after = snapshot(q)
@@ -549,6 +559,22 @@ def gen_cases(rng, tier):
             rows = [[rng.randrange(1000) for _ in range(isz)] for _ in range(n)]
             cases.append({'id': 'cols%d' % len(cases), 'mode': 'cols', 'isz': isz, 'rows': rows, 'kind': 'cols',
                           'nontrivial': n > 1 and isz > 1, 'req': ['c11', 'cols', isz, rows]})
+    # 7. non-finite / incompressible data x EVERY digits and reference option (quick tier too): the non-finite rule of
+    #    _encode_one_float_array and the literal fallback of _fpzip_encoded under lossy settings
+    for _ in range(3 if thorough else 1):
+        for digits, reference in DIGIT_OPTS:
+            has_single = 'single' in (digits if isinstance(digits, list) else [digits])
+            for dist in ('inf', 'nan') + (() if has_single else ('wide',)):
+                for cls in (FLOAT_CLASSES[0], rng.choice(FLOAT_CLASSES[1:4])):
+                    shape = rng.choice(BIG_SHAPES[:5])
+                    o = rand_obj(rng, 'float', shape, lossy=True, cls=cls)
+                    o['vdist'] = dist
+                    o['denom'] = []
+                    o['mask'] = rand_mask(rng, shape, rng.choice(['F', 'random', 'border', 'holes']))
+                    derivs = rand_derivs(rng, o, True) if rng.random() < 0.25 else []
+                    for d in derivs:
+                        d['vdist'] = rng.choice([dist, 'normal'])
+                    add(o, derivs=derivs, digits=digits, reference=reference, digits_first=rng.random() < 0.2)
     return cases
 
 
